@@ -243,6 +243,10 @@ theorem C02_gen_np_tf_composes {n m : Nat} (u : CGrid ℝ n m) (dx lam k z1 z2 :
   exact ⟨C02_np_tf_composes u dx lam k z1 z2 hdx hm, C02_np_tf_zero_distance_identity u dx lam k hdx hm,
     C02_np_tf_negative_distance_undoes u dx lam k z1 hdx hm⟩
 
+/-- the regenerated `custom` called without a kernel (`kernel = None`: ones) and without an aperture is the identity -/
+theorem C02_gen_custom_without_kernel_is_identity {n m : Nat} (u : CGrid ℝ n m) : customOnesT u (CGrid.const 1) = u := by
+  rw [gen_customOnesT_eq, custom_const_one]; exact customNoAp_one u
+
 /-- through the regenerated dispatch of torch `propagate_beam` (no padding, default aperture): two calls with the
     angular-spectrum type compose -/
 theorem C02_gen_propagate_beam_composes {n m : Nat} (u Kc : CGrid ℝ n m) (dx lam k z1 z2 : ℝ) (s0 s1 s2 s3 : Nat) :
